@@ -206,13 +206,19 @@ globalThis.__kept=(globalThis.__kept||[]).concat(kept);
 print('weak-kept', refs.every(function(r,i){ return r.deref()===kept[i]; }), kept.map(function(k){ return wm.get(k).v; }).join(','), kept.every(function(k){ return ws.has(k); }), wm.get(kept[0]).k===kept[0]);
 "# },
     Kernel { name: "weak-dropped", kind: 'w', src: r#"
-var fr=new FinalizationRegistry(function(held){ weakobs('finalized', held); });
-var kept={name:'kept'}; globalThis.__kept2=(globalThis.__kept2||[]).concat([kept]); var token={};
-var refs=[]; (function(){ for (var i=0;i<$A+2;i++){ var o={i:i, pad:new Array(20).fill(i)}; fr.register(o,'dropped'+i); refs.push(new WeakRef(o)); } var u={}; fr.register(u,'unregistered',token); fr.unregister(token); })();
-fr.register(kept,'kept'); var keptRef=new WeakRef(kept);
-var alive=refs.filter(function(r){ return r.deref()!==undefined; }).length; weakobs('alive-now', alive); weakobs('kept-deref', keptRef.deref()===kept);
-Promise.resolve().then(function(){ weakobs('alive-later', refs.filter(function(r){ return r.deref()!==undefined; }).length); weakobs('kept-deref', keptRef.deref()===kept); });
-print('weak-dropped', refs.length);
+var W=globalThis.__weak||(globalThis.__weak={frs:[], refs:[], kept:[], keptRefs:[]});
+var fr=new FinalizationRegistry(function(held){ weakobs('finalized', held); }); W.frs.push(fr);
+var kept={name:'kept'}; W.kept.push(kept); var token={};
+(function(){ for (var i=0;i<$A+2;i++){ var o={i:i, pad:new Array(20).fill(i)}; fr.register(o,'dropped'+W.refs.length); W.refs.push(new WeakRef(o)); } var u={}; fr.register(u,'unregistered',token); fr.unregister(token); })();
+(function(){ for (var i=0;i<3;i++){ fr.register({only:'fr'+i}, 'dropped-fr'+W.frs.length+'-'+i); } })(); var junk=[]; for (var j=0;j<40;j++) junk.push({j:j});
+fr.register(kept,'kept'); W.keptRefs.push(new WeakRef(kept));
+weakobs('alive-now', W.refs.filter(function(r){ return r.deref()!==undefined; }).length, W.refs.length); weakobs('kept-deref', W.keptRefs.every(function(r,i){ return r.deref()===W.kept[i]; }));
+print('weak-dropped', W.refs.length);
+"# },
+    Kernel { name: "weak-observe", kind: 'o', src: r#"
+var W=globalThis.__weak; if (W){ var first=W.refs.map(function(r){ return r.deref()!==undefined; }); var again=W.refs.map(function(r){ return r.deref()!==undefined; });
+weakobs('alive-later', first.filter(Boolean).length, W.refs.length); weakobs('stable-within-job', first.join()==again.join()); weakobs('kept-deref', W.keptRefs.every(function(r,i){ return r.deref()===W.kept[i]; })); }
+print('weak-observe', W ? W.refs.length : -1);
 "# },
     Kernel { name: "mixed-allocation", kind: 's', src: r#"
 function build(d){ if (d==0) return {leaf:true, s:'l'+d, a:[1,2,3], f:function(){ return d; }}; return {l:build(d-1), r:build(d-1), m:new Map([[d,{d:d}]]), s:new Set([d]), g:(function*(){ yield d; })(), re:/x/g, dt:new Date(d), ta:new Uint8Array(d), sym:Symbol('s'+d), b:BigInt(d)**20n, bound:build.bind(null,0), p:Promise.resolve(d), e:new Error('e'+d), args:(function(){ return arguments; })(d,d), px:new Proxy({}, {}), wr:new WeakRef({}), str:'x'.repeat(d)+d}; }
@@ -253,17 +259,18 @@ pub fn by_kind(kinds: &str) -> Vec<&'static Kernel> {
     KERNELS.iter().filter(|k| kinds.contains(k.kind)).collect()
 }
 
-/// A program made of `n` kernels of the given kinds, in seeded order.
-pub fn compose(rng: &mut Rng, kinds: &str, n: usize) -> (String, Vec<&'static str>) {
+/// A program made of `n` kernels of the given kinds, in seeded order: one source text per kernel
+/// (join them for a single evaluation, or evaluate them one by one in the same context).
+pub fn compose(rng: &mut Rng, kinds: &str, n: usize) -> (Vec<String>, Vec<&'static str>) {
     let pool = by_kind(kinds);
-    let mut src = String::new();
+    let mut parts = vec![];
     let mut names = vec![];
     for _ in 0..n {
         let k = *rng.pick(&pool);
         names.push(k.name);
-        src.push_str(&instantiate(k, rng));
+        parts.push(instantiate(k, rng));
     }
-    (src, names)
+    (parts, names)
 }
 
 pub fn harvest() -> &'static Vec<(String, Vec<String>)> {
